@@ -121,6 +121,7 @@ def poly_der(c, k=1):
     return c
 
 
+@lru_cache(maxsize=400000)
 def basis_values(p, U, u, order=0):
     """(span, rows) with rows[k][j] = d^k/du^k N_{span-p+j,p}(u), k = 0..order (right derivative at
     knots, left at the domain end)"""
